@@ -6,7 +6,7 @@ One prompt per property goes to <outdir>/Cxx_r<round>.txt.  A prompt contains th
 already exist for it (seeded/SUMMARY.json) - nothing else from /verif.  The sub-agent works in its
 own scratch worktree /tmp/wt-Cxx of /repo.
 
-usage: tools/gen_seed_prompts.py <round> <first-number> <outdir> [local]
+usage: tools/gen_seed_prompts.py <round> <first-number> <outdir> [local|helpers]
 """
 import json
 import os
@@ -62,6 +62,13 @@ EMPHASIS_LOCAL = """Find something of a genuinely different nature, at a code si
 Read the anchored code first and pick sites whose behaviour the existing tests do not pin down. The violating inputs may be unusual, but they must lie inside what the statement and its quantifier cover."""
 
 
+EMPHASIS_HELPERS = """Find something of a genuinely different nature, at a code site none of them touches. This round is again about SMALL edits (one to five changed lines), but NOT in the main line of the functions the anchors name: look at what those functions rely on -
+  - private helpers and module-level utilities they call (also in other modules: _internal.py, urls.py, http.py, sansio/*, datastructures/mixins.py, exceptions.py ...), regular expressions, character classes, constant tables and sets, default argument values, class attributes that act as configuration defaults;
+  - base classes and mixins whose method the anchored class inherits or overrides, `__init__` / `copy` / `__eq__` / `__iter__` style protocol methods, properties and descriptors;
+  - the order of two statements, an `elif` chain whose branches overlap, a loop bound, a `break` / `continue`, a guard that became too wide or too narrow, a type check (`isinstance` of one type too few or too many), `is None` against truthiness.
+Read the anchored code and what it calls first, and pick sites whose behaviour the existing tests do not pin down. The violating inputs may be unusual, but they must lie inside what the statement and its quantifier cover."""
+
+
 def main(rnd, first, outdir, emphasis=EMPHASIS_DEEP):
     os.makedirs(outdir, exist_ok=True)
     summary = json.load(open(os.path.join(ROOT, "seeded", "SUMMARY.json")))
@@ -77,4 +84,4 @@ def main(rnd, first, outdir, emphasis=EMPHASIS_DEEP):
 
 
 if __name__ == "__main__":
-    main(int(sys.argv[1]), int(sys.argv[2]), sys.argv[3], EMPHASIS_LOCAL if len(sys.argv) > 4 and sys.argv[4] == "local" else EMPHASIS_DEEP)
+    main(int(sys.argv[1]), int(sys.argv[2]), sys.argv[3], {"local": EMPHASIS_LOCAL, "helpers": EMPHASIS_HELPERS}.get(sys.argv[4] if len(sys.argv) > 4 else "", EMPHASIS_DEEP))
